@@ -146,18 +146,26 @@ package virtual
 // reported ChangeInfo brackets exactly that modification.
 //@ func (*inMemoryPrepopulatedDirectory).VirtualMkdir
 //@   props C13
+//@   at call Normalize#1 assert name-normalised: arg1 == name
+//@   at call attachNewDirectory#1 assert appears-under-the-requested-name: arg2 == name && arg3 == normalizedName
 //@   ensures failure-modifies-nothing: r2 != StatusOK ==> forall c ref :: touches(c) == 0
 //@   ensures success-is-one-modification: r2 == StatusOK ==> touches(&i.contents) == 1 && r1.After == r1.Before + 1 && r1.After == i.contents.changeID
 //@ func (*inMemoryPrepopulatedDirectory).VirtualMknod
 //@   props C13
+//@   at call Normalize#1 assert name-normalised: arg1 == name
+//@   at call attach#1 assert appears-under-the-requested-name: arg2 == name && arg3 == normalizedName && arg4.leaf == child && arg4.directory == nil
 //@   ensures failure-modifies-nothing: r2 != StatusOK ==> forall c ref :: touches(c) == 0
 //@   ensures success-is-one-modification: r2 == StatusOK ==> touches(&i.contents) == 1 && r1.After == r1.Before + 1 && r1.After == i.contents.changeID
 //@ func (*inMemoryPrepopulatedDirectory).VirtualLink
 //@   props C13
+//@   at call Normalize#1 assert name-normalised: arg1 == name
+//@   at call attach#1 assert hard-link-shares-the-one-file: arg2 == name && arg3 == normalizedName && arg4.leaf == leaf && arg4.directory == nil
 //@   ensures failure-modifies-nothing: r1 != StatusOK ==> forall c ref :: touches(c) == 0
 //@   ensures success-is-one-modification: r1 == StatusOK ==> touches(&i.contents) == 1 && r0.After == r0.Before + 1 && r0.After == i.contents.changeID
 //@ func (*inMemoryPrepopulatedDirectory).VirtualOpenChild
 //@   props C13
+//@   at call Normalize#1 assert name-normalised: arg1 == name
+//@   at call attach#1 assert appears-under-the-requested-name: arg2 == name && arg3 == normalizedName && arg4.leaf == leaf && arg4.directory == nil
 //@   ensures failure-modifies-nothing: r3 != StatusOK ==> forall c ref :: touches(c) == 0
 //@   ensures opening-an-existing-file-modifies-nothing: r3 == StatusOK && r2.After == r2.Before ==> forall c ref :: touches(c) == 0
 //@   ensures creation-is-one-modification: r3 == StatusOK && r2.After != r2.Before ==> touches(&i.contents) == 1 && r2.After == r2.Before + 1 && r2.After == i.contents.changeID
@@ -174,6 +182,11 @@ package virtual
 //@   ensures renaming-a-file-onto-itself-or-its-hard-link-is-a-no-op:
 //@             r2 == StatusOK && oldEntry != nil && newEntry != nil && oldEntry.child.directory == nil && newEntry.child.directory == nil &&
 //@             oldEntry.child.leaf != nil && newEntry.child.leaf == oldEntry.child.leaf ==> forall c ref :: touches(c) == 0
+//@   at call Normalize#1 assert old-name-normalised: arg1 == oldName
+//@   at call Normalize#2 assert new-name-normalised: arg1 == newName
+//@   at call attach#1 assert moved-child-appears-under-the-new-name: arg2 == newName && arg3 == normalizedNewName && arg4.directory == oldEntry.child.directory && arg4.leaf == oldEntry.child.leaf && arg4.kind == oldEntry.child.kind
+//@   at call attach#2 assert moved-child-appears-under-the-new-name: arg2 == newName && arg3 == normalizedNewName && arg4.directory == oldEntry.child.directory && arg4.leaf == oldEntry.child.leaf && arg4.kind == oldEntry.child.kind
+//@   at call attach#3 assert moved-child-appears-under-the-new-name: arg2 == newName && arg3 == normalizedNewName && arg4.directory == oldEntry.child.directory && arg4.leaf == oldEntry.child.leaf && arg4.kind == oldEntry.child.kind
 //@   ensures change-info-reports-the-final-counters: r2 == StatusOK ==> r0.After == oldContents.changeID && r1.After == newContents.changeID
 
 // ---------------------------------------------------------------------------
